@@ -28,7 +28,8 @@ type wEvent struct {
 
 // faultWriter logs every call and fails call number failAt.
 // mode: 0 permanent (this and every later call fail), 1 transient (only this
-// call fails), 2 short write (half of the bytes are accepted, error returned).
+// call fails), 2 short write (half of the bytes are accepted, error returned),
+// 3 full-length write that still reports an error.
 type faultWriter struct {
 	events   []wEvent
 	accepted bytes.Buffer
@@ -51,6 +52,11 @@ func (w *faultWriter) do(p string, viaStr bool) (int, error) {
 	if w.mode == 2 && idx == w.failAt {
 		n = len(p) / 2
 		w.accepted.WriteString(p[:n])
+	}
+	if w.mode == 3 && idx == w.failAt {
+		// legal for an io.Writer: everything was taken AND an error is reported (e.g. a flush failed)
+		n = len(p)
+		w.accepted.WriteString(p)
 	}
 	ev.n = n
 	w.events = append(w.events, ev)
@@ -142,7 +148,7 @@ func c16Input(cs *core.Case, env *Env) string {
 
 func runC16(ctx *core.Ctx) {
 	ctx.Level = "fault_enumeration"
-	ctx.Rule = "for each driven (policy, input): the fault-free run's write sequence has W calls; EVERY index k < W is faulted in three modes (permanent, transient, short write) for both writer kinds (with and without WriteString), and EVERY source byte offset o <= len(input) is faulted in two modes (error alone / error with the last chunk) with two chunkings, for both reader entry points; oracle over the recorded event log: non-nil error, no call after the failed one, accepted bytes are a prefix of the fault-free output; SanitizeReader returns an empty buffer. Non-trivial = a faulted run, distinct by (policy, input, fault)"
+	ctx.Rule = "for each driven (policy, input): the fault-free run's write sequence has W calls; EVERY index k < W is faulted in four modes (permanent, transient, short write, full-length write that still returns an error) for both writer kinds (with and without WriteString), and EVERY source byte offset o <= len(input) is faulted in two modes (error alone / error with the last chunk) with two chunkings, for both reader entry points; oracle over the recorded event log: non-nil error, no call after the failed one, accepted bytes are a prefix of the fault-free output; SanitizeReader returns an empty buffer. Non-trivial = a faulted run, distinct by (policy, input, fault)"
 	ctx.Assume("exhaustive in the fault position for the driven pairs only", "inputs are capped at 64 (quick) / 400 (thorough) writes")
 	ctx.Exhaustive(true)
 	pols := c16Policies()
@@ -184,7 +190,7 @@ func runC16(ctx *core.Ctx) {
 		}
 		for k := 0; k < W; k++ {
 			cls := writeClass(ref.events[k].data)
-			for mode := 0; mode < 3; mode++ {
+			for mode := 0; mode < 4; mode++ {
 				for kind := 0; kind < 2; kind++ {
 					fw := &faultWriter{failAt: k, mode: mode}
 					var w io.Writer = fw
@@ -198,7 +204,7 @@ func runC16(ctx *core.Ctx) {
 					if env.Spec.Unsafe && cls == "text" {
 						lc["faulted_write:text-under-allow-unsafe"]++
 					}
-					modeName := []string{"permanent", "transient", "short-write"}[mode]
+					modeName := []string{"permanent", "transient", "short-write", "full-write-with-error"}[mode]
 					sigSfx := cls + ":" + modeName
 					if len(fw.events) <= k {
 						// the write sequence changed under the fault: the faulted call never happened
